@@ -611,6 +611,11 @@ pub fn judge(world: &World) -> Judgement {
                 match &f.diff {
                     FileDiff::None | FileDiff::Deleted => (false, false),
                     FileDiff::Added => (true, true),
+                    // a removed line is reported at the place where it used to be: in front of
+                    // rendered line `line`, which may be the block's end tag
+                    FileDiff::Insert { line, edit: LineEdit::Removed { .. }, .. } => {
+                        (b.start_line < *line && *line <= b.end_line, false)
+                    }
                     FileDiff::Insert { line, .. } => (b.start_line < *line && *line < b.end_line, false),
                 }
             };
@@ -939,7 +944,7 @@ pub fn invalid_reason(world: &World) -> Option<String> {
                 return Some("check-lua block without x-tok".into());
             }
         }
-        if let FileDiff::Insert { line, renamed_from } = &f.diff {
+        if let FileDiff::Insert { line, renamed_from, edit } = &f.diff {
             let l = *line;
             if let Some(old) = renamed_from {
                 if old.is_empty()
@@ -956,6 +961,28 @@ pub fn invalid_reason(world: &World) -> Option<String> {
             let is_tag = |n: usize| {
                 r.blocks.iter().any(|b| b.start_line == n || b.end_line == n)
             };
+            if let LineEdit::Replaced { old } | LineEdit::Removed { old } = edit {
+                if r.lines.iter().any(|x| x == old) || old.contains('\n') {
+                    // git would have more than one way to write the diff
+                    return Some("old text of the changed line occurs in the file".into());
+                }
+            }
+            if let LineEdit::Removed { .. } = edit {
+                // reported in front of rendered line l: a content line or the end tag of the block
+                // the removed line was in, never a start tag
+                if r.blocks.iter().any(|b| b.start_line == l) {
+                    return Some("removed line in front of a start tag".into());
+                }
+                if !r.blocks.iter().any(|b| b.start_line < l && l <= b.end_line) {
+                    return Some("removed line outside every block".into());
+                }
+                for b in &r.blocks {
+                    if b.end_line + 1 == l {
+                        return Some("removed line right behind an end tag".into());
+                    }
+                }
+                continue;
+            }
             if is_tag(l) {
                 return Some("inserted line is a tag line".into());
             }
